@@ -1,10 +1,11 @@
 (* C03 -- Every complete expansion strategy finds exactly the minimal trap spaces
 
    Proved for BFS and DFS completion from any diagram reachable by plain operations (bfs_complete /
-   dfs_complete need only the invariants that run_invariants establishes).  PARTIAL: for minimal-space,
-   attractor-seed, block, source-SCC expansion and completion by skipping, the statement is decided by the
-   correspondence run (model expand_min / skip_remaining vs code) plus the comparison of
-   minimal_trap_spaces() with Brute.min_traps_b, whose exactness is min_traps_b_spec.
+   dfs_complete need only the invariants that run_invariants establishes), for minimal-space expansion
+   (expand_min_exact / expand_min_complete) and for completion by skip_remaining.  PARTIAL: for attractor-seed,
+   block and source-SCC expansion the statement is decided by the correspondence run (models ASeeds.v /
+   Blocks.v replayed against the code) plus the comparison of minimal_trap_spaces() with Brute.min_traps_b,
+   whose exactness is min_traps_b_spec.
 
    This file contains only restatements closed by `exact` (statements produced by Coq's own
    `Check` of the library lemma) plus non-vacuity Examples, each followed by Print Assumptions. *)
@@ -12,7 +13,7 @@ From Coq Require Import List Bool Arith NArith Lia Relations Permutation.
 Import ListNotations.
 From BB Require Import BN Brute SpaceFacts TrapFacts PercolateFacts AttractorFacts Diagram Invariants Checks Filter
   Strict PetriNet Control Meta FilterFacts PetriNetFacts TrappistFacts DiagramStruct DiagramSem1 DiagramCache
-  DiagramDepth DiagramComplete Termination ControlFacts MetaFacts.
+  DiagramDepth DiagramComplete Termination ControlFacts MetaFacts Candidates StrictFacts MinExpandFacts CandidatesFacts.
 
 Theorem C03_bfs_complete : forall (fuel : nat) (N : net) (cfg : config) (d d' : sd), 1 <= max_motifs cfg -> SWF N d -> NoStubEdges d -> EdgeStrict d -> Rooted d -> expand_bfs fuel N cfg d None None None = (d', RBool true) -> AllExpanded d'.
 Proof. exact bfs_complete. Qed.
@@ -40,6 +41,25 @@ Proof. exact min_trap_fixes_sources. Qed.
 Theorem C03_invariants_along_histories : forall (fuel : nat) (N : net) (cfg : config) (h : list op) (d : sd) (r : result), 1 <= max_motifs cfg -> Forall plain h -> In (d, r) (run fuel N cfg (init N) h) -> SWF N d /\ TrapNodes N d /\ EdgeStrict d /\ NoStubEdges d /\ Rooted d /\ Faithful N d.
 Proof. exact run_invariants. Qed.
 
+(* minimal-space expansion (with or without skip_ignored) from a fresh diagram: leaves = minimal trap spaces *)
+Theorem C03_minimal_space_expansion_exact : forall (fuel : nat) (N : net) (cfg : config) (d' : sd) (skip : bool) (tape : list space), 1 <= max_motifs cfg -> expand_min fuel N cfg (init N) None None skip tape = (d', RBool true) -> LeafOK N d' /\ MinFound N d'.
+Proof. exact expand_min_exact. Qed.
+
+(* ... and from any diagram satisfying the invariants *)
+Theorem C03_minimal_space_expansion_complete : forall (fuel : nat) (N : net) (cfg : config) (d d' : sd) (skip : bool) (tape : list space), 1 <= max_motifs cfg -> SWF N d -> TrapNodes N d -> NoStubEdges d -> EdgeStrict d -> Faithful N d -> n_space (get d 0) = percolate_b N (top_space (nvars N)) -> expand_min fuel N cfg d None None skip tape = (d', RBool true) -> MinFound N d'.
+Proof. exact expand_min_complete. Qed.
+
+(* completion of an early-stopped diagram by skip_remaining *)
+Theorem C03_skip_remaining_exact : forall (N : net) (d d' : sd) (tape : list space) (k : nat), SWF N d -> TrapNodes N d -> NoStubEdges d -> EdgeStrict d -> LeafOK N d -> n_space (get d 0) = percolate_b N (top_space (nvars N)) -> skip_remaining N d tape = (d', RNat k) -> LeafOK N d' /\ MinFound N d' /\ AllExpanded d'.
+Proof. exact skip_remaining_exact. Qed.
+
+(* in every reachable diagram (any history) an expanded node without successors is a minimal trap space *)
+Theorem C03_leaves_always_minimal : forall (fuel : nat) (N : net) (cfg : config) (h : list op) (d : sd) (r : result), 1 <= max_motifs cfg -> In (d, r) (run fuel N cfg (init N) h) -> LeafOK N d.
+Proof. exact run_LeafOK. Qed.
+
+Theorem C03_no_duplicates : forall (N : net) (d : sd) (i j : nat), SWF N d -> i < size d -> j < size d -> n_space (get d i) = n_space (get d j) -> i = j.
+Proof. exact minimal_nodes_unique. Qed.
+
 (* non-vacuity: two bistable switches; x0'=x1, x1'=x0, x2'=x3, x3'=x2 *)
 Definition ex_sw : net := [fun s => nth 1 s false; fun s => nth 0 s false; fun s => nth 3 s false; fun s => nth 2 s false].
 Definition ex_cfg : config := {| max_motifs := 1000 |}.
@@ -55,3 +75,8 @@ Print Assumptions C03_min_trap_exists.
 Print Assumptions C03_min_trap_closed.
 Print Assumptions C03_min_trap_fixes_sources.
 Print Assumptions C03_invariants_along_histories.
+Print Assumptions C03_minimal_space_expansion_exact.
+Print Assumptions C03_minimal_space_expansion_complete.
+Print Assumptions C03_skip_remaining_exact.
+Print Assumptions C03_leaves_always_minimal.
+Print Assumptions C03_no_duplicates.
